@@ -744,6 +744,26 @@ def install():
             ctx.violate("C18", "releasable_tasks_mismatch", f"get_releasable_tasks returned {got}, expected {sorted(exp)}")
     wrap(wlmod.Workload, "get_releasable_tasks", after=releasable_after)
 
+    @active
+    def graph_releasable_after(ctx, ret, self):
+        # the per-graph routine (what a workload update calls for the graphs it added)
+        if ctx.sim is None or getattr(ctx, "in_probe", False):
+            return
+        gd = ctx.graph_desc.get(self.name.split("@")[0])
+        if gd is None:
+            return
+        exp = []
+        for t in self.get_nodes():
+            ps = gd["parents"].get(t.name, [])
+            done = all((ctx.rec_by_name(self.name, p) or {}).get("finishes") for p in ps)
+            if t._state.name in ("VIRTUAL", "SCHEDULED", "PREEMPTED") and done:
+                exp.append(t.unique_name)
+        ctx.count("releasable_calls")
+        got = sorted(t.unique_name for t in ret)
+        if got != sorted(exp):
+            ctx.violate("C18", "releasable_tasks_mismatch", f"{self.name}.get_releasable_tasks returned {got}, expected {sorted(exp)}")
+    wrap(TaskGraph, "get_releasable_tasks", after=graph_releasable_after)
+
     # ---- utilization rows --------------------------------------------------------------
     @active
     def util_before(ctx, self, sim_time):
@@ -1063,6 +1083,10 @@ def _frontier_probes(ctx, sim, sim_time):
     from utils import EventTime
     BP = wl.BranchPredictionPolicy
     state = _random.getstate()
+    try:
+        sim._workload.get_releasable_tasks()  # judged by the releasable hooks (read-only)
+    except Exception as e:
+        ctx.violate("C18", f"releasable_raises:{type(e).__name__}", str(e)[:200])
     ctx.in_probe = True
     try:
         wlobj = sim._workload
